@@ -551,8 +551,15 @@ impl Visitor for UnusedVariableVisitor {
             // Register removal positions for symbols in the destination.
             match dest {
                 LetDestination::Symbol(symbol) => {
-                    self.let_removal_positions
-                        .insert(symbol.interned_id, removal_position);
+                    // `let x = e` evaluates to Unit but `e` does not,
+                    // so dropping the `let` is only safe where the
+                    // value of the expression is discarded. Otherwise
+                    // (e.g. the last expression of a function body)
+                    // the variable is renamed instead.
+                    if !expr.value_is_used {
+                        self.let_removal_positions
+                            .insert(symbol.interned_id, removal_position);
+                    }
                 }
                 LetDestination::Destructure(_) => {
                     // For destructuring, we can't simply remove the let,
